@@ -98,6 +98,9 @@ class FakeBlob:
             return out
         return _Downloader(fn)
 
+    def close(self):
+        pass
+
     def take(self):
         with self.lock:
             l, self.log = self.log, []
